@@ -142,3 +142,71 @@ func SMRange(m *sync.Map, f func(k, v interface{}) bool) {
 func MapPtr[K comparable, V any](m map[K]V) unsafe.Pointer {
 	return *(*unsafe.Pointer)(unsafe.Pointer(&m))
 }
+
+// --- sync.Pool -----------------------------------------------------------------------------------
+//
+// The real pool hands items out per P and may drop them at any GC: which Get sees which Put is not
+// decided by the program. The model is the adversarial legal behaviour, made deterministic: a LIFO stack per
+// pool and per run - a Get always receives the most recently Put item if there is one.
+
+var (
+	poolMu sync.Mutex
+	pools  = map[*Sim]map[*sync.Pool][]interface{}{}
+)
+
+// PoolGet replaces (*sync.Pool).Get.
+func PoolGet(p *sync.Pool) interface{} {
+	s := cur()
+	if s == nil {
+		return p.Get()
+	}
+
+	YieldFine("pool.Get")
+
+	poolMu.Lock()
+	st := pools[s][p]
+
+	if n := len(st); n > 0 {
+		x := st[n-1]
+		pools[s][p] = st[:n-1]
+		poolMu.Unlock()
+		SyncOp(p)
+
+		return x
+	}
+	poolMu.Unlock()
+
+	if p.New != nil {
+		return p.New()
+	}
+
+	return nil
+}
+
+// PoolPut replaces (*sync.Pool).Put.
+func PoolPut(p *sync.Pool, x interface{}) {
+	s := cur()
+	if s == nil {
+		p.Put(x)
+
+		return
+	}
+
+	YieldFine("pool.Put")
+	SyncOp(p)
+
+	poolMu.Lock()
+	if pools[s] == nil {
+		pools[s] = map[*sync.Pool][]interface{}{}
+	}
+
+	pools[s][p] = append(pools[s][p], x)
+	poolMu.Unlock()
+}
+
+// dropPools forgets a finished run's pools.
+func dropPools(s *Sim) {
+	poolMu.Lock()
+	delete(pools, s)
+	poolMu.Unlock()
+}
